@@ -769,6 +769,47 @@ where
     ))
 }
 
+/// `c08.mmseq <kind> n m x y <ops>`: a SEQUENCE of operations on ONE multiplier object (`Monty::Multiplier`): `m` = `mul_assign(acc, y)`,
+/// `s` = `square_assign(acc)`; after every operation prints `retrieve()/as_montgomery()` of the accumulator (seed C15-m8: a
+/// multiplier whose internal product buffer is not cleared is wrong from its SECOND operation on).
+fn mmseq_dyn<const N: usize, const W: usize>(m: &str, x: &str, y: &str, ops: &str) -> Option<String>
+where
+    Uint<N>: Concat<Output = Uint<W>>,
+    Uint<W>: Split<Output = Uint<N>>,
+{
+    let modulus: Option<Odd<Uint<N>>> = Odd::new(arg!(uint::<N>(m))).into();
+    let p = MontyParams::new(arg!(modulus));
+    let (mut acc, y) = (MontyForm::new(&arg!(uint::<N>(x)), p), MontyForm::new(&arg!(uint::<N>(y)), p));
+    let mut mm = <<MontyForm<N> as Monty>::Multiplier<'_>>::from(&p);
+    let mut out = Vec::new();
+    for c in ops.chars() {
+        match c {
+            'm' => mm.mul_assign(&mut acc, &y),
+            's' => mm.square_assign(&mut acc),
+            _ => return Some(BAD.to_string()),
+        }
+        out.push(format!("{}/{}", uhex(&acc.retrieve()), uhex(acc.as_montgomery())));
+    }
+    Some(out.join(" "))
+}
+
+fn mmseq_boxed(n: usize, m: &str, x: &str, y: &str, ops: &str) -> Option<String> {
+    let modulus: Option<Odd<BoxedUint>> = Odd::new(arg!(boxed(m, n))).into();
+    let p = BoxedMontyParams::new(arg!(modulus));
+    let (mut acc, y) = (BoxedMontyForm::new(arg!(boxed(x, n)), p.clone()), BoxedMontyForm::new(arg!(boxed(y, n)), p.clone()));
+    let mut mm = <<BoxedMontyForm as Monty>::Multiplier<'_>>::from(&p);
+    let mut out = Vec::new();
+    for c in ops.chars() {
+        match c {
+            'm' => mm.mul_assign(&mut acc, &y),
+            's' => mm.square_assign(&mut acc),
+            _ => return Some(BAD.to_string()),
+        }
+        out.push(format!("{}/{}", bhex(&acc.retrieve()), bhex(acc.as_montgomery())));
+    }
+    Some(out.join(" "))
+}
+
 struct ParamsEqConst;
 impl ConstVisitor for ParamsEqConst {
     fn visit<P: ConstMontyParams<N>, const N: usize>(self) -> Option<String> {
@@ -934,6 +975,14 @@ pub fn dispatch(op: &str, a: &[&str]) -> Option<String> {
         ("c08.redc", [n, lo, hi, m, k]) => {
             let n = arg!(dec(n));
             with_n!(n, redc, lo, hi, m, k)
+        }
+        ("c08.mmseq", [kind, n, m, x, y, ops]) => {
+            let n = arg!(dec(n));
+            match *kind {
+                "dyn" => with_nw!(n, mmseq_dyn, m, x, y, ops),
+                "boxed" => mmseq_boxed(n, m, x, y, ops),
+                _ => Some(BAD.to_string()),
+            }
         }
         ("c08.mul_mod", [kind, n, x, y, p]) => {
             let n = arg!(dec(n));
